@@ -311,10 +311,15 @@ impl Sim {
     }
 
     fn fetch_process_types(&mut self) -> HashMap<usize, (Type, usize)> {
+        let start = self.shared.borrow().log.len();
         let req = match self.env.request_process_types() {
             Ok(r) => r,
             Err(_) => return HashMap::new(),
         };
+        if self.trace {
+            self.out.push("(client \"request_process_types\")".to_string());
+            self.emit_log_since(start);
+        }
         self.in_prelude = true;
         let mut out = HashMap::new();
         for _ in 0..200 {
